@@ -1,7 +1,7 @@
 #!/bin/bash
 # run every check of the manifest once (tier from $1, default quick) and print rc / wall time per check
 tier=${1:-quick}
-cd /verif
+cd "$(dirname "$0")/.."
 fail=0
 for id in C01 C02 C03 C04 C05 C06 C07 C08 C09 C10 C11 C12 C13 C14 C15 C16 C17 C18 C19 C20; do
   s=$(date +%s.%N)
